@@ -104,7 +104,10 @@ def sin_altitude_grid(orbital_phase, synodic_phase, lon, sin_lat):
   sy = np.cos(dec) * np.sin(ls)
   sz = np.sin(dec)
   horiz = sx[:, None] * np.cos(lon)[None, :] + sy[:, None] * np.sin(lon)[None, :]      # (T, nlon)
-  return horiz[:, :, None] * cl[None, None, :] + sz[:, None, None] * mu[None, None, :]
+  out = np.empty((len(op), len(lon), len(mu)))
+  np.multiply(horiz[:, :, None], cl[None, None, :], out=out)
+  out += (sz[:, None] * mu[None, :])[:, None, :]
+  return out
 
 
 def sin_altitude_points(orbital_phase, synodic_phase, lon, lat):
